@@ -22,7 +22,7 @@ THEOREMS = ['C10_idempotent', 'C10_ascii_clean', 'C10_canonical', 'C10_idempoten
             'C10_equiv_dot_segments_partial', 'C10_equiv_escape_case_partial', 'C10_equiv_fragment_partial', 'C10_equiv_ipv4_partial',
             'C10_constants_are_the_sources', 'C10_equiv_dot_segments_url_partial', 'C10_dropped_segments',
             'C10_equiv_host_case_url_partial', 'C10_equiv_dot_segments_whole_url_partial', 'C10_equiv_host_case_whole_url_partial',
-            'C10_equiv_default_port_whole_url_partial', 'C10_equiv_fragment_whole_url_partial']
+            'C10_equiv_default_port_whole_url_partial', 'C10_equiv_fragment_whole_url_partial', 'C10_equiv_ipv4_whole_url_partial']
 TRUSTED = [
     'harness/translate/consts.py (fail-closed AST evaluator of constant definitions) -> coq/Gen/Consts.v, regenerated every run; Proofs/ConstsAgree.v proves the model\'s constants equal to it for every value',
         'hand-written model Model/Url.v + Model/UrlLib.v of wpull/url.py, tied by the vm_compute correspondence of this run '
@@ -819,9 +819,9 @@ LEVEL_TEXT = ('Coq theorems over the executable model of wpull/url.py, for ALL i
               '(C10_equiv_*_whole_url_partial: strip, control-character check and scheme detection included); the letter case of the hex digits of escapes at the level of '
               'percent_encode + uppercase_percent_encoding for the path, query and fragment encode sets (every byte string, escapes as the '
               'scanner delimits them); a dropped fragment at the level of parse_network for arbitrary text (C10_equiv_fragment_partial). '
-              'IPv4 notation only in the form "the normalized address is a function of the 32-bit value" (C10_equiv_ipv4_partial; that the '
-              'host parser reaches that function for every spelling, and IPv6 re-spelling - a library oracle -, are '
-              'NOT theorems: they are checked on the '
+              'IPv4 notation as "the normalized address is a function of the 32-bit value" (C10_equiv_ipv4_partial) and, through the host '
+              'parser, for the whole URL (C10_equiv_ipv4_whole_url_partial). IPv6 re-spelling - a library oracle - and several '
+              're-spellings combined in one URL are NOT theorems: they are checked on the '
               'implementation for every generated URL (variants). The model is tied to the code on every run by evaluating it inside '
               'Coq against URLInfo.parse and all accessors.')
 LEVEL_NOTE = ('The model is a pure function of the string; that the implementation is one too although URLInfo.parse is memoised and its results are '
